@@ -947,6 +947,47 @@ func streamWriteNotUnder(c *Ctx, rule, lock, what string) int {
 	}
 	sort.Strings(keys)
 	n := 0
+	// ... nor is, while that lock is held, a lock acquired that senders hold across a stream write (a stream's own write
+	// lock): whoever waits for it waits for a peer-paced write, with the table locked for everyone
+	pacing := map[string]bool{}
+	for _, k := range keys {
+		for _, u := range by[k].uses {
+			for _, h := range u.locks.Keys() {
+				if h != lock && !strings.HasPrefix(h, "path:") {
+					pacing[h] = true
+				}
+			}
+		}
+	}
+	if len(pacing) > 0 {
+		ls := c.Locks()
+		nAcq := 0
+		for _, fn := range c.P.LibFns {
+			if clientSide(c, fn) {
+				continue
+			}
+			ir.EachInstr(fn, func(_ *ssa.BasicBlock, _ int, in ssa.Instruction) {
+				op, ok := ls.Classify(in)
+				if !ok || !op.Acquire || !pacing[op.Key] {
+					return
+				}
+				nAcq++
+				held := ls.At(in)
+				if held.Has(lock) {
+					c.R.Violate(rule, sprintf("%s acquired under the %s lock in %s", op.Key, what, fname(fn)), c.Pos(in.Pos()),
+						sprintf("%s acquires %s — a lock that senders hold for the whole of a write to a peer's stream — while it holds %s, the lock of the %s: when the peer of that stream has stopped reading, the acquisition waits for the stalled write with the table locked, the session's new stream is never registered and no session's sends proceed", fname(fn), op.Key, lock, what))
+				}
+			})
+		}
+		nestedEdges, _ := nestedThroughCallees(c, c.P.LibFns)
+		for _, e := range nestedEdges {
+			if e.from == lock && pacing[e.to] {
+				c.R.Violate(rule, sprintf("%s acquired under the %s lock through a call in %s", e.to, what, fname(e.at.Parent())), c.Pos(e.at.Pos()),
+					sprintf("%s calls, while it holds %s (the lock of the %s), a function that acquires %s — a lock senders hold across a write to a peer's stream: a stalled peer keeps the table locked for everyone", fname(e.at.Parent()), lock, what, e.to))
+			}
+		}
+		c.R.Hold(rule, "write-pacing locks are not acquired under the "+what+" lock", "", sprintf("%d acquisitions of %d lock(s) held across stream writes examined", nAcq, len(pacing)))
+	}
 	for _, k := range keys {
 		cnt := map[string]int{}
 		for _, u := range by[k].uses {
